@@ -14,6 +14,7 @@ META = {
                 "that the month pillar used by the day officer is the one C08 leaves outside (switching at Jie days)"],
     "assumptions": [
         "engine B object model: axioms A-index (11.d), A-pillar (19.h); weekday = (N+1) mod 7 (07.a) and day pillar = (N+49) mod 60 (07.c) for day number N",
+        "17.g lunar-hour spirits: the day pillar reported by the instant-level view (SixtyCycleHour::get_day) is the day pillar, rolled to the next one from 23:00 (C09's instant-level clause, assumed here); the hour pillar's branch is floor((h+1)/2) mod 12 (09.a)",
         "struct invariants: lunar month number 1..12, day 1..30, pillars 0..59",
     ],
 }
@@ -29,4 +30,4 @@ def engine_b(tier, seed, scr):
         return err
     return [pillars.k_six_star(eng), almanac.k_phase_ren(eng, "phase"), almanac.k_phase_ren(eng, "ren-month"), almanac.k_phase_ren(eng, "ren-day"),
             pillars.k_month_nine_star(eng), almanac.k_mansion(eng, "LunarDay"), almanac.k_mansion(eng, "SixtyCycleDay"),
-            almanac.k_duty_twelve(eng, "duty"), almanac.k_duty_twelve(eng, "twelve"), almanac.k_hour_twelve(eng)]
+            almanac.k_duty_twelve(eng, "duty"), almanac.k_duty_twelve(eng, "twelve"), almanac.k_hour_twelve(eng), almanac.k_lunar_hour_twelve(eng)]
